@@ -73,6 +73,8 @@ def field_decl(f, vis=""):
 
 def enum_decl(e, vis="pub ", docs=False, derive=True):
     lines = []
+    if e.get("prelude"):
+        lines.append(e["prelude"])
     if docs:
         lines.append("/// enum %s" % e["name"])
     args = [e.get("bits_text") or ("u%d" % e["bits"])]
